@@ -386,10 +386,10 @@ pub fn gen_wire_plan(prop: Prop, seed: u64, tier: Tier) -> WirePlan {
         });
     }
 
-    let sched = if rng.chance(1, 2) {
-        SchedKind::Random
-    } else {
-        SchedKind::Pct
+    let sched = match rng.below(5) {
+        0 | 1 => SchedKind::Random,
+        2 | 3 => SchedKind::Pct,
+        _ => SchedKind::Sticky,
     };
     WirePlan {
         seed,
